@@ -30,7 +30,7 @@ func vfC12Desc(n, maxTok int, zoned bool, nzones int, now int64, symTimes bool) 
 		nt := 1 + vfChoice("ntok", maxTok)
 		reg, rots := now-1000, int64(0)
 		ro := vfBool("ro_" + id)
-		if symTimes {
+		if symTimes && i < vfParam("hist", 8) {
 			reg = vfI64("reg_" + id)
 			vfAssume(vfAnd(reg >= 1, reg <= now))
 			rots = vfI64("rots_" + id)
@@ -171,7 +171,7 @@ func HarnessC12_Consistency() {
 func HarnessC12_Lookback() {
 	maxInst := vfParam("inst", 3)
 	n := 1 + vfChoice("n", maxInst)
-	zoneAware := vfChoice("za", 2) == 1
+	zoneAware := vfChoice("za", vfParam("za", 2)) == 1
 	nz := 1
 	if zoneAware {
 		nz = 1 + vfChoice("nzones", vfParam("zones", 2))
